@@ -35,7 +35,7 @@ def run(ctx):
             behaviours.append(b)
     cfgs = set((b["cfg"]["alg"], b["cfg"]["pk"], b["cfg"]["det"], b["cfg"]["aad"]) for b in behaviours)
     fields = set(a["field"] for b in behaviours for a in b["alters"])
-    if len(cfgs) != 128 or fields != {"sig", "protected", "payload", "aad", "key", "siglen", "algid"}:
+    if len(cfgs) != 128 or fields != {"sig", "protected", "payload", "argpayload", "aad", "key", "siglen", "algid"}:
         raise Inconclusive("vacuous generation: %d configurations, fields %s" % (len(cfgs), sorted(fields)))
     if not any(b["expect"] == "accept" for b in behaviours) or not any(b["expect"] == "reject" for b in behaviours):
         raise Inconclusive("vacuous generation: one verdict class missing")
